@@ -192,9 +192,21 @@ func (conn *Conn) SetNoCopy(noCopy bool) {
 
 func (conn *Conn) write(call *Call) {
 	if conn.writeSched != nil {
+		// The write queue is closed once the connection is shut down, and
+		// closing it must not overlap a Schedule call (the scheduler would
+		// reuse its WaitGroup during Wait and panic). The shutdown flag is set
+		// under the same lock before the queue is closed.
+		conn.mutex.Lock()
+		if conn.shutdown {
+			conn.mutex.Unlock()
+			call.Error = ErrShutdown
+			call.done()
+			return
+		}
 		conn.writeSched.Schedule(func() {
 			conn.send(call)
 		})
+		conn.mutex.Unlock()
 	} else {
 		conn.send(call)
 	}
